@@ -56,14 +56,15 @@ func (s *sys) newLimiter(capacity int) *ratelimit.TokenLimiter {
 		opts = append(opts, ratelimit.Capacity(capacity))
 	}
 	if s.varRates {
+		// the extractor hands out two long-lived, shared rate sets (one per "plan"), as a real one would
+		shortSet, longSet := ratelimit.NewRateSet(), ratelimit.NewRateSet()
+		shortSet.Add(period, avg, burst)
+		longSet.Add(longPeriod, longAvg, burst)
 		opts = append(opts, ratelimit.ExtractRates(ratelimit.RateExtractorFunc(func(r *http.Request) (*ratelimit.RateSet, error) {
-			x := ratelimit.NewRateSet()
 			if r.Header.Get("Rate") == "long" {
-				x.Add(longPeriod, longAvg, burst)
-			} else {
-				x.Add(period, avg, burst)
+				return longSet, nil
 			}
-			return x, nil
+			return shortSet, nil
 		})))
 	}
 	tl, err := ratelimit.New(http.HandlerFunc(func(w http.ResponseWriter, r *http.Request) {
